@@ -15,7 +15,7 @@ import builtins
 from dataclasses import dataclass
 from typing import Callable, Dict, FrozenSet, List, Optional, Sequence, Set, Tuple
 
-from .common import construct, guards_of, where
+from .common import construct, guards_of, norm_guards, where
 from .loader import AnalysisError, ClassInfo, FuncInfo, Program, walk_shallow
 from .taint import EMPTY, Origins, TaintAnalysis, TaintSpec
 
@@ -413,7 +413,7 @@ class EscapeAnalysis:
             if n == 2 and isinstance(maxsplit, ast.Constant) and maxsplit.value == 1 and isinstance(sep, ast.Constant):
                 # guarded by `<sep> in <text>` on the true branch: exactly two parts
                 recv = ast.unparse(v.func.value)
-                for g, pol in guards_of(node, fn.node):
+                for g, pol in norm_guards(node, fn.node):
                     if pol and isinstance(g, ast.Compare) and len(g.ops) == 1 and isinstance(g.ops[0], ast.In) and isinstance(g.left, ast.Constant) \
                             and g.left.value == sep.value and ast.unparse(g.comparators[0]) == recv:
                         return
